@@ -91,7 +91,7 @@ package ctlog
 //@   ensures [C06] cas-failure-stops: gReplaceOK == 0 ==> !gUpTried["checkpoint"] && gAppliedOK == 0 && gCachePuts == 0 && l.tree == old(l.tree) && l.lockCheckpoint == old(l.lockCheckpoint) && l.edgeTiles == old(l.edgeTiles)
 //@   ensures [C03,C06] tile-failure-fatal: gReplaceOK == 1 && gAppliedOK == 0 ==> err != nil && Is(err, errFatal)
 //@   ensures [C01] at-most-one-cas: gReplaceTried <= 1
-//@   ensures [C01] state-advances-with-cas: gReplaceOK == 1 ==> l.tree.N == old(l.tree.N) + len(p.pendingLeaves) && l.tree.Time > old(l.tree.Time) && lockedBytes(l.lockCheckpoint) == gLastNew
+//@   ensures [C01,C06] state-advances-with-cas: gReplaceOK == 1 ==> l.tree.N == old(l.tree.N) + len(p.pendingLeaves) && l.tree.Time > old(l.tree.Time) && lockedBytes(l.lockCheckpoint) == gLastNew
 //@   ensures [C04] edge-consistent-after: l.tree.N >= 0 && (l.tree.N % 256 == 0 ==> ((!has(l.edgeTiles, -1) || l.edgeTiles[-1].W == 256) && (!has(l.edgeTiles, -2) || l.edgeTiles[-2].W == 256)))
 //@   ensures [C08] no-fetch: gFetches == 0
 //@   ensures [C01] history-extends: realizable(l.tree.Tree) && isPrefix(seqOfTree(old(l.tree.Tree)), seqOfTree(l.tree.Tree)) && l.tree.Time >= old(l.tree.Time)
